@@ -498,6 +498,28 @@ def compressor_post(ctx, tie, cases, rng, max_model_prefix=40000):
 
 # ---------------------------------------------------------------------------------------------
 
+def sanitizer_pass(ctx, hint_cases_, comp_cases):
+    """thorough tier, supporting test: the same histories on ASan+UBSan builds of the two harnesses; a trap is reported"""
+    hs = core.build_harness("c10_hints", ["c10_hints.c"], variant="asan", extra_flags=["-w"])
+    ks = core.build_harness("c02_stream", ["c02_stream.c"], variant="asan", extra_flags=["-w"])
+    hl = ["H %s %s %s %d %s %d 300000" % (c["id"], st.dflags_str(c["flags"]), codec.hx(c["stream"]["frame"] + c["follow"]), len(c["stream"]["frame"]),
+                                         c["mode"], c["cap"]) for c in hint_cases_]
+    kl = []
+    for c in comp_cases:
+        l = "Y %s %s %s %s" % (c["id"], codec.params_str(c["params"]), codec.hx(c["x"]), c["ops"])
+        if c["pledged"] is not None:
+            l += " %d" % c["pledged"]
+        kl.append(l)
+    n = 0
+    for exe, lines, what in ((hs, hl, "c10_hints"), (ks, kl, "c02_stream")):
+        out, errs = st.run_lines(exe, lines, timeout=900)
+        for e in errs:
+            n += 1
+            ctx.violation(dict(kind="sanitizer", harness=what, detail=e), what="ASan/UBSan build of %s trapped or crashed: %s" % (what, str(e.get("stderr", ""))[-300:]))
+    ctx.notes["sanitizer_histories"] = len(hl) + len(kl)
+    return n
+
+
 def replay(ctx, tie, cd, hexe):
     obj = json.load(open(ctx.replay_file))
     rp = obj.get("replay", {})
@@ -623,6 +645,10 @@ def run(ctx):
     ctx.notes["flush_points"] = dict(decoded_by_libzstd=nflush, decoded_by_reference_decoder=nfl + nfl2,
                                      multithreaded=sum(len(c.get("flushpoints", [])) for c in mc))
     core.log("compressor histories: %d single-threaded + %d multithreaded, flush points %d, violations %d (%.0fs)" % (len(kc), len(mc), nflush, kv + kv2, time.time() - ctx.t0))
+
+    if not quick:
+        sv = sanitizer_pass(ctx, hc, kc + mc[: len(mc) - len(ms)])
+        core.log("sanitizer pass: %d traps (%.0fs)" % (sv, time.time() - ctx.t0))
 
     def search(broken):
         # every direct oracle of the property has just been evaluated on the real code; its hits are already reported
